@@ -91,14 +91,13 @@ Section Binding.
     2:{ split; [discriminate|]. intros (_ & r & a & b & _ & _ & _ & _ & _ & Hah & _).
         apply bytes_eqb_neq in Ea. contradiction. }
     apply bytes_eqb_eq in Ea.
-    destruct (bytes_eqb (txns_root H txs) (tx_root h)) eqn:Etr; cbn [andb negb].
-    2:{ split; [discriminate|]. intros (_ & r & a & b & _ & _ & _ & _ & _ & _ & Htr & _).
-        apply bytes_eqb_neq in Etr. congruence. }
-    apply bytes_eqb_eq in Etr.
-    destruct (N.of_nat (length txs) =? tx_count h) eqn:Ec; cbn [negb].
-    - split; [|reflexivity]. intros _. split; [lia|].
+    destruct (N.of_nat (length txs) =? tx_count h) eqn:Ec; cbn [andb negb].
+    2:{ split; [discriminate|]. intros (_ & r & a & b & _ & _ & _ & _ & _ & _ & _ & Hc). lia. }
+    destruct (bytes_eqb (txns_root H txs) (tx_root h)) eqn:Etr; cbn [negb].
+    - apply bytes_eqb_eq in Etr. split; [|reflexivity]. intros _. split; [lia|].
       exists root, pda, ptime. repeat split; auto; lia.
-    - split; [discriminate|]. intros (_ & r & a & b & _ & _ & _ & _ & _ & _ & _ & Hc). lia.
+    - split; [discriminate|]. intros (_ & r & a & b & _ & _ & _ & _ & _ & _ & Htr & _).
+      apply bytes_eqb_neq in Etr. congruence.
   Qed.
 
   (* ---------- consensus ---------- *)
